@@ -4,6 +4,7 @@ package gen
 
 import (
 	"strings"
+	"unicode/utf8"
 
 	"verifharness/ref"
 )
@@ -68,8 +69,32 @@ var Literals = []string{
 // switch the router to its first-byte index).
 var FanBytes = []string{"a", "b", "c", "d", "e", "f", "g", "h", "1", "2", "-", ".", "é", "z"}
 
-// Pattern generates one well-formed pattern from the pools.
-func Pattern(r *ref.R) string {
+// Pool is a set of literals and parameter tokens patterns are drawn from.
+type Pool struct {
+	Tokens   []TokSpec
+	Literals []string
+	FanBytes []string
+}
+
+// Hostile is the full pool (C01, C02, C05...).
+var Hostile = &Pool{Tokens: Tokens, Literals: Literals, FanBytes: FanBytes}
+
+// Simple is the pool of the history engines (C03/C04/C17...): literals carry
+// no digit and every token accepts short digit strings, so that witness paths
+// built with digit values decompose uniquely (DESIGN C03).
+var Simple = &Pool{
+	Tokens: []TokSpec{Tokens[0], Tokens[1], Tokens[2], Tokens[3], Tokens[4], Tokens[5], Tokens[6], Tokens[7], Tokens[8], Tokens[9], Tokens[10], Tokens[13]},
+	Literals: []string{"/", "/a", "/ab", "/abc", "a", "aa", "b", "//", ".", ".html", "-", "/x/", "/a/", "+", "(", "é", "/users/", "/log", "/author", "/abd", "x"},
+	FanBytes: []string{"a", "b", "c", "d", "e", "f", "g", "h", "-", ".", "é", "z", "/"},
+}
+
+func Pattern(r *ref.R) string          { return Hostile.Pattern(r) }
+func Derive(r *ref.R, b string) string { return Hostile.Derive(r, b) }
+func Table(r *ref.R, n int) []string   { return Hostile.Table(r, n) }
+
+// Pattern generates one well-formed pattern from the pool.
+func (pl *Pool) Pattern(r *ref.R) string {
+	Literals, Tokens := pl.Literals, pl.Tokens
 	var b strings.Builder
 	used := map[string]bool{}
 	ntok := []int{0, 1, 1, 1, 2, 2, 3}[r.Intn(7)]
@@ -125,14 +150,15 @@ func Pattern(r *ref.R) string {
 
 // Derive makes a pattern that shares a prefix with base: cut base at a random
 // position outside any token and append new material.
-func Derive(r *ref.R, base string) string {
+func (pl *Pool) Derive(r *ref.R, base string) string {
+	Tokens := pl.Tokens
 	cuts := []int{}
 	depth := 0
 	for i := 0; i <= len(base); i++ {
 		if i < len(base) && base[i] == '{' {
 			depth++
 		}
-		if depth == 0 && i > 0 {
+		if depth == 0 && i > 0 && (i == len(base) || utf8.RuneStart(base[i])) {
 			cuts = append(cuts, i)
 		}
 		if i < len(base) && base[i] == '}' {
@@ -140,11 +166,11 @@ func Derive(r *ref.R, base string) string {
 		}
 	}
 	if len(cuts) == 0 {
-		return Pattern(r)
+		return pl.Pattern(r)
 	}
 	cut := ref.Pick(r, cuts)
 	head := base[:cut]
-	tail := Pattern(r)
+	tail := pl.Pattern(r)
 	// keep the regexp family rule and no-adjacent-tokens rule at the seam
 	if strings.HasSuffix(head, "}") {
 		if strings.HasPrefix(tail, "{") {
@@ -168,7 +194,8 @@ func Derive(r *ref.R, base string) string {
 
 // Table generates a set of distinct well-formed patterns that share prefixes,
 // split each other and compete; with fans of >=5 literal siblings.
-func Table(r *ref.R, n int) []string {
+func (pl *Pool) Table(r *ref.R, n int) []string {
+	Tokens, FanBytes := pl.Tokens, pl.FanBytes
 	seen := map[string]bool{}
 	var out []string
 	add := func(p string) {
@@ -180,7 +207,7 @@ func Table(r *ref.R, n int) []string {
 	for len(out) < n {
 		switch {
 		case len(out) > 0 && r.Chance(1, 2):
-			add(Derive(r, ref.Pick(r, out)))
+			add(pl.Derive(r, ref.Pick(r, out)))
 		case r.Chance(1, 5):
 			// a fan: several literal siblings under one parent plus parameter siblings
 			prefix := ""
@@ -197,7 +224,7 @@ func Table(r *ref.R, n int) []string {
 			bs := append([]string(nil), FanBytes...)
 			ref.Shuffle(r, bs)
 			for _, fb := range bs[:k] {
-				add(prefix + fb + ref.Pick(r, []string{"", "x", "/", "/q", "1"}))
+				add(prefix + fb + ref.Pick(r, []string{"", "x", "/", "/q", "y"}))
 			}
 			if r.Chance(2, 3) {
 				add(prefix + ref.Pick(r, Tokens).Text)
@@ -206,7 +233,7 @@ func Table(r *ref.R, n int) []string {
 				add(prefix + ref.Pick(r, Tokens).Text + ref.Pick(r, []string{"/", "/x", ".html", "-"}))
 			}
 		default:
-			add(Pattern(r))
+			add(pl.Pattern(r))
 		}
 	}
 	return out
@@ -321,3 +348,16 @@ func Path(r *ref.R, pats []ref.Pattern) string {
 
 var Methods = []string{"GET", "POST", "DELETE", "PUT", "PATCH", "CONNECT", "TRACE", "HEAD", "OPTIONS"}
 var AnyMethods = []string{"GET", "POST", "DELETE", "PUT", "PATCH", "CONNECT"}
+
+// SimpleFor filters the Simple pool for an interceptor set: only tokens whose
+// constraint accepts short digit strings under that set (named, intercepted
+// rules, class regexps) remain.
+func SimpleFor(ics ICSet) *Pool {
+	p := &Pool{Literals: Simple.Literals, FanBytes: Simple.FanBytes}
+	for _, t := range Simple.Tokens {
+		if t.Rule == "" || t.Class != nil || ics.Funcs[t.Rule] != nil {
+			p.Tokens = append(p.Tokens, t)
+		}
+	}
+	return p
+}
